@@ -212,9 +212,13 @@ def run_history(prop, spec, seed, tier, known, ev):
         pool.append(q['src'])
     pool += ["function f(){ return a + b( }", "const __datadog_test_0 = 1; function f(){ return a + b(); }",
              "function f(a){ return a + b(); }\n//# sourceMappingURL=data:application/json;base64,eyJ2ZXJzaW9uIjozLCJzb3VyY2VzIjpbIm9yaWcudHMiXSwibmFtZXMiOltdLCJtYXBwaW5ncyI6IkFBQUEifQ==",
-             "var x = 1;", "function f(){ return `a${b}` + 'some long literal value'; }", ""]
-    cfgs = [vlib.DEFAULT_CFG, dict(vlib.DEFAULT_CFG, localVarPrefix="other", chainSourceMap=True, comments=True),
-            {"localVarPrefix": "zz", "csiMethods": [{"src": "plusOperator", "operator": True}], "telemetryVerbosity": "OFF"},
+             "var x = 1;", "function f(){ return `a${b}` + 'some long literal value'; }", "",
+             "//# sourceMappingURL=data:application/json;base64,eyJ2ZXJzaW9uIjozLCJzb3VyY2VzIjpbImxlYWsudHMiXSwibmFtZXMiOltdLCJtYXBwaW5ncyI6IkFBQUEifQ==\nfunction f( { return",
+             "const __datadog_test_0 = 1; function f(){ return a + b(); }\n//# sourceMappingURL=data:application/json;base64,eyJ2ZXJzaW9uIjozLCJzb3VyY2VzIjpbImxlYWsudHMiXSwibmFtZXMiOltdLCJtYXBwaW5ncyI6IkFBQUEifQ==",
+             "const __datadog_other_0 = 1; function f(){ return a + b(); }\n//# sourceMappingURL=data:application/json;base64,eyJ2ZXJzaW9uIjozLCJzb3VyY2VzIjpbImxlYWsudHMiXSwibmFtZXMiOltdLCJtYXBwaW5ncyI6IkFBQUEifQ==",
+             "const __datadog_first_0 = 1; function f(){ return a + b(); }\n//# sourceMappingURL=data:application/json;base64,eyJ2ZXJzaW9uIjozLCJzb3VyY2VzIjpbImxlYWsudHMiXSwibmFtZXMiOltdLCJtYXBwaW5ncyI6IkFBQUEifQ=="]
+    cfgs = [dict(vlib.DEFAULT_CFG, chainSourceMap=True), dict(vlib.DEFAULT_CFG, localVarPrefix="other", chainSourceMap=True, comments=True),
+            {"localVarPrefix": "zz", "csiMethods": [{"src": "plusOperator", "operator": True}], "telemetryVerbosity": "OFF", "chainSourceMap": True},
             dict(vlib.DEFAULT_CFG, localVarPrefix="first")]
     violations = []
     total = 0
@@ -575,6 +579,10 @@ def trace_program(g):
             lines.append("  return String.prototype.concat.call('', boom(),")
             calls.append(("g%d" % k, len(lines)))
             lines.append("    1); }")
+    if g.chance(1, 2):
+        # eval frames: the call sites of the evaluated code are reported through getEvalOrigin
+        lines.append("function ev%d(){ return eval('eval(\\'boom()\\')'); }" % n)
+        calls.append(("ev%d" % n, len(lines)))
     if g.chance(1, 3):
         lines.insert(0, "'use strict';")
         calls = [(f, l + 1) for f, l in calls]
@@ -625,7 +633,8 @@ def run_js(prop, spec, seed, tier, known, ev):
     for i in range(ntraces):
         g = r.fork()
         code, calls, boom_line = trace_program(g)
-        file = g.choice(["t%d.js" % i, "dir/sub/t%d.js" % i])
+        # absolute names, as Node reports them (the eval-origin pattern of the package expects them)
+        file = g.choice(["/abs/t%d.js" % i, "/abs/dir/sub/t%d.js" % i])
         traces.append((i, code, file, calls, boom_line))
         calls_needed.append((code, file))
         job["traces"].append({"id": i, "file": file, "code": code, "calls": [c[0] for c in calls]})
@@ -719,6 +728,14 @@ def run_js(prop, spec, seed, tier, known, ev):
                 if len(mine) < 2:
                     hit('frames-of-the-rewritten-file-missing/' + branch, dict(req, fn=fn), json.dumps(st)[:400])
                     continue
+                if branch == 'formatted' and isinstance(st, str) and 'eval at' in st:
+                    import re as _re
+                    for ln in st.split('\n'):
+                        if 'eval at' in ln:
+                            for mm in _re.finditer(_re.escape(os.path.basename(file)) + r':(\d+):(\d+)', ln):
+                                nframes += 1
+                                if int(mm.group(1)) != line:
+                                    hit('eval-origin-not-translated-to-the-original-line', dict(req, fn=fn, expected=line), ln.strip()[:300])
                 if str(mine[0]['file']) != os.path.normpath(file) or mine[0]['line'] != boom_line or mine[1]['line'] != line:
                     hit('call-site-not-translated-to-the-original-line/' + branch, dict(req, fn=fn, expected=[boom_line, line]),
                         json.dumps(mine[:3]))
